@@ -272,7 +272,7 @@ theorem retOp_len {c : Cfg} {s s' : State} {t : Tid} (h : retOp c s t = some s')
 /-- the length bookkeeping holds for every thread in every reachable state -/
 theorem reach_len {c : Cfg} {s : State} (hcap : 0 < c.cap) (h : Reach c s) : ∀ t, LenOK c (s.th t) := by
   refine Reachable.invariant (fun s => ∀ t, LenOK c (s.th t)) ?_ ?_ s h
-  · intro s hs; subst hs; intro t; simp [LenOK, State.init]
+  · intro s hs; obtain ⟨r0, rfl⟩ := hs; intro t; simp [LenOK, State.initAt]
   · intro s s' hi hst u
     cases hst with
     | thread t tok spur l ht hs =>
